@@ -134,13 +134,25 @@ func (r *ampRouter) SendPacket(p simnet.Packet) error {
 				r.closed = true
 			}
 		}
-		r.wire = append(r.wire, u.App("WSend", u.Z(n)))
+		if isClose || isRetry {
+			r.wire = append(r.wire, u.App("WSendU", u.Z(n))) // not gated by SendMode
+		} else {
+			r.wire = append(r.wire, u.App("WSend", u.Z(n)))
+		}
 		r.trace = append(r.trace, fmt.Sprintf("%v S>C#%d %dB %s (sent=%d)", now, idx, n, desc, r.sent))
 		if !r.validated {
 			r.nUnvalidated++
 			if r.sent >= 3*r.delivered {
 				r.atLimit = true
 			}
+		}
+		if !r.validated && !isClose && !isRetry && r.sent-n >= 3*r.delivered && r.sent-n > 0 {
+			// a datagram packed after a SendMode check must start strictly under the limit (SendMode is SendNone AT the limit)
+			key := "ampconn/bound"
+			if r.violationKey != "" {
+				key = r.violationKey
+			}
+			r.viol = append(r.viol, ampViolation{key, fmt.Sprintf("unvalidated: a %d-byte datagram (%s) was started with %d bytes sent >= 3*%d delivered", n, desc, r.sent-n, r.delivered), len(r.trace)})
 		}
 		if !r.validated && r.sent > 3*r.delivered+n {
 			key := "ampconn/bound"
